@@ -26,6 +26,7 @@ var errLookedAtExceptions = map[string]string{
 	"E2 auth.AuthPlain:AuthPlain1":          "a provider's refusal is superseded by the next provider's answer; the last one is what the final return reports (success comes only from a nil answer: C14.R3b)",
 	"E2 smtp.releaseLimits:*":               "cannot fail: the very same string was split successfully when the permit was taken (C03.R5 / C03.immut)",
 	"E2 msgpipeline.srcBlockForAddr:Split1": "the empty reverse-path is not an address: the error is deliberately ignored for it (comment at the site) and the lookup goes on with empty parts",
+	"E2 dns.CheckCNAMEAD:exchange2":         "the AAAA fallback is best effort by design: when it fails the canonical name stays empty, which the only caller (discoverTLSA) turns into the error 'no address associated with the host' – the delivery is deferred, nothing is treated as secure",
 	"E1 pass_table.AuthPlain:Lookup1":       "the `ok` result is tested before the error: a failed table lookup is answered as 'unknown credentials'; authentication is refused on both paths, so C14 is not affected (the reply class for a broken table is outside the listed properties)",
 }
 
